@@ -24,6 +24,7 @@ type hist struct {
 
 type histGen struct {
 	c        *Ctx
+	attrs    bool // row/column attributes, hyperlinks, rich text, defined names (oracle only)
 	merges   bool
 	saves    string // "" | "W" | "O" | "WO"
 	far      bool
@@ -55,8 +56,8 @@ func rectsOverlap(a, b [4]int) bool {
 func (g histGen) gen(n int) hist {
 	r := g.c.Rng
 	h := hist{Sheet: []string{"Sheet1", "S2"}[r.Intn(2)], W: 6, H: 6, C0: 1, R0: 1}
-	if g.far && r.Intn(4) == 0 {
-		h.C0, h.R0 = []int{16379, 700, 26}[r.Intn(3)], []int{1, 250, 1000}[r.Intn(3)]
+	if g.far && r.Intn(10) == 0 {
+		h.C0, h.R0 = []int{16379, 700, 26, 53}[r.Intn(4)], []int{1, 250, 40}[r.Intn(3)]
 	}
 	var rects [][4]int
 	for i := 0; i < n; i++ {
@@ -95,6 +96,27 @@ func (g histGen) gen(n int) hist {
 			}
 		case k < 94 && g.saves != "":
 			o = sop{K: string(g.saves[r.Intn(len(g.saves))])}
+		case k < 100 && g.attrs:
+			switch r.Intn(9) {
+			case 0:
+				o = sop{K: "H", F: []float64{15, 20.5, 0, 409, 33.75}[r.Intn(5)]}
+			case 1:
+				o = sop{K: "V", B: r.Intn(2) == 0}
+			case 2:
+				o = sop{K: "CW", F: []float64{8.43, 20, 0.5, 255, 12.25}[r.Intn(5)]}
+			case 3:
+				o = sop{K: "CS", St: r.Intn(5)}
+			case 4:
+				o = sop{K: "CV", B: r.Intn(2) == 0}
+			case 5:
+				o = sop{K: "L", B: r.Intn(2) == 0, S: "https://example.com/?a=1&b=<2>"}
+			case 6:
+				o = sop{K: "T", S: strDict[r.Intn(len(strDict))]}
+			case 7:
+				o = sop{K: "D", S: fmt.Sprintf("name_%d", r.Intn(4))}
+			default:
+				o = sop{K: "S", PK: []string{"dur", "time"}[r.Intn(2)], I: []int64{3600e9, 86399e9, 1700000000, 0, 4102444800}[r.Intn(5)]}
+			}
 		default:
 			o = g.payload()
 		}
